@@ -304,11 +304,11 @@ func (e *ringEnv) describe(code uint32, in []bool) string {
 		for r, p := range ps {
 			switch {
 			case p == code:
-				s += fmt.Sprintf(" [= virtual node %d of %s, installed=%v]", r, e.host(int16(i)), in[i])
+				s += fmt.Sprintf(" [= ring point %d of %s, installed=%v]", r, e.host(int16(i)), in[i])
 			case p == code+1 && code != math.MaxUint32:
-				s += fmt.Sprintf(" [= (virtual node %d of %s)-1, installed=%v]", r, e.host(int16(i)), in[i])
+				s += fmt.Sprintf(" [= (ring point %d of %s)-1, installed=%v]", r, e.host(int16(i)), in[i])
 			case p+1 == code && p != math.MaxUint32:
-				s += fmt.Sprintf(" [= (virtual node %d of %s)+1, installed=%v]", r, e.host(int16(i)), in[i])
+				s += fmt.Sprintf(" [= (ring point %d of %s)+1, installed=%v]", r, e.host(int16(i)), in[i])
 			}
 		}
 	}
@@ -317,6 +317,10 @@ func (e *ringEnv) describe(code uint32, in []bool) string {
 	}
 	return s
 }
+
+// noRef (C14_NO_REF=1) switches oracle (a) off; used ONLY in sensitivity experiments to show
+// that the metamorphic oracles (b), (c), (d) have teeth of their own.
+var noRef = os.Getenv("C14_NO_REF") == "1"
 
 // observe routes every probed code through Select and compares with the reference ring.
 func (e *ringEnv) observe(ch *consistenthash.ConsistentHash, in []bool, where string) ([]int16, *stat.Failure) {
@@ -342,6 +346,9 @@ func (e *ringEnv) observe(ch *consistenthash.ConsistentHash, in []bool, where st
 			return nil, stat.Failf("routed-to-absent", "%s: %s routed to %s which is not installed (installed %s)", where, e.describe(code, in), e.host(int16(k)), setStr(in))
 		}
 		got[i] = int16(k)
+	}
+	if noRef {
+		return got, nil
 	}
 	want := refLookupSorted(refRing(e.points, in), e.codes)
 	for i := range got {
@@ -1194,4 +1201,33 @@ func TestC14(t *testing.T) {
 	stat.Check(t, st, "mod", stat.N(2500, 10000), drawMod, runMod)
 }
 
-// Sensitivity record: filled in after the mutation runs (see bottom of file).
+// Sensitivity record (2026-09-27, scratch worktree /tmp/wt_c14 of /repo HEAD, one mutant at a
+// time, `VERIF_REPO=/tmp/wt_c14 ./check C14` quick tier; every run exited 1; sub-check:signature
+// of the recorded violations in brackets):
+//
+//	consistenthash_new.go
+//	 1 FindInt32: no wrap to index 0 (clamp to last index)            [ring:ring-mismatch]
+//	 2 addLocked: md5(host) without the "_i" suffix                   [ring:ring-mismatch]
+//	 3 sort(): ring sorted descending                                 [ring:ring-mismatch]
+//	 4 FindInt32: successor `>` instead of `>=` on a ring point       [ring:ring-mismatch]
+//	 5 Remove: loop `i < weight-1` (last virtual node stays)          [ring:routed-to-absent, ring:empty-set-routed]
+//	 6 Remove: no reBuildHashRingLocked                               [ring:foreign-endpoint, ring:empty-set-routed]
+//	 7 Add: no sort after addLocked                                   [ring:ring-mismatch]
+//	 8 weight(): ceil(w/4) instead of floor                           [ring:ring-mismatch]
+//	 9 addLocked: big-endian words                                    [ring:ring-mismatch]
+//	10 addLocked: 3 points per digest                                 [ring:ring-mismatch]
+//	11 weight(): ep.Weight used although enableWeight=false           [ring:ring-mismatch]
+//	12 Refresh: mapValues not reset                                   [ring:select-error]
+//	modhash.go
+//	13 plain branch `(h+1) % n`                                       [mod:mod-slot]
+//	14 weighted branch `(h+1) % len(cache)`                           [mod:weighted-indexing]
+//	15 Remove: no reBuildLocked (stale weighted cache)                [mod:panic]
+//	16 addLocked: prepend instead of append                           [mod:mod-slot, mod:weighted-indexing]
+//	17 Refresh: mapValues not reset                                   [mod:mod-slot]
+//	with oracle (a) switched off (C14_NO_REF=1) to test (b)/(c)/(d) alone:
+//	18 mutant 7                                                        [ring:history-dependence, ring:remove-disturbed-others, ring:add-moved-to-old-endpoint]
+//	19 virtual-node salt depends on the number of installed endpoints [ring:history-dependence, ring:routed-to-absent]
+//	20 lookup index shifted by len(mapValues) (pure function of the
+//	   set, deterministic, but not minimally disruptive)              [ring:add-moved-to-old-endpoint, ring:remove-disturbed-others]
+//	21 every 4099th lookup answers index 0                            [ring:remove-disturbed-others, ring:history-dependence]
+//	22 control: comment-only change, C14_NO_REF=1                      exit 0
